@@ -251,3 +251,5 @@ func sortedKeys[V any](m map[string]V) []string {
 	sort.Strings(ks)
 	return ks
 }
+
+func newShared() publictypes.SharedStateI[[]byte] { return lunarContext.NewMemoryState[[]byte]() }
